@@ -57,6 +57,8 @@ type C12Case struct {
 	PageBorderB int `json:"page_border_b,omitempty"`
 }
 
+var c12Side = map[string]bool{"left": true, "right": true, "recto": true, "verso": true}
+
 var c12Forced = map[string]bool{"page": true, "left": true, "right": true, "always": true, "recto": true, "verso": true}
 
 func c12Gen(t *rapid.T, tier Tier) interface{} {
@@ -123,7 +125,10 @@ func c12Gen(t *rapid.T, tier Tier) interface{} {
 	// a forced break-after and a forced break-before on the same boundary: keep one
 	for i := 1; i < len(c.Blocks); i++ {
 		if c12Forced[c.Blocks[i-1].BA] && c.Blocks[i].BB != "" {
-			c.Blocks[i].BB = ""
+			// (two requests for a side on one break point are kept: the later one in the flow wins)
+			if !(c12Side[c.Blocks[i-1].BA] && c12Side[c.Blocks[i].BB]) {
+				c.Blocks[i].BB = ""
+			}
 		}
 		if c.Blocks[i-1].BA == "avoid" && c12Forced[c.Blocks[i].BB] {
 			c.Blocks[i-1].BA = ""
@@ -468,7 +473,8 @@ func c12Check(ci interface{}) Verdict {
 			return false, ""
 		}
 		side := ""
-		for _, v := range []string{c.Blocks[i].BB, c.Blocks[i-1].BA} {
+		// (css-break-3 3.1: of several forced break values on one break point, the one latest in the flow wins)
+		for _, v := range []string{c.Blocks[i-1].BA, c.Blocks[i].BB} {
 			switch v {
 			case "left", "verso":
 				side = "left"
